@@ -789,6 +789,52 @@ fn run_request(case: &Value, j: &J) -> Obs {
     if let Some(why) = atoms_law(&atoms) {
         return o.fail(why, "atom-law");
     }
+    // the same print/parse law on atoms the case does not name: the wall clock (what every constructor stores),
+    // and instants / addresses spread over the whole range, derived from the case text
+    {
+        use chrono::{DateTime, TimeZone, Utc};
+        let mut h = Prng::new(text.bytes().fold(0u64, |a, b| a.wrapping_mul(131).wrapping_add(b as u64)));
+        let mut probes: Vec<DateTime<Utc>> = vec![Utc::now(), DateTime::<Utc>::MIN_UTC, DateTime::<Utc>::MAX_UTC];
+        for _ in 0..6 {
+            let secs = (h.next() % (2 * 8_210_000_000_000u64)) as i64 - 8_210_000_000_000i64; // about +-260 000 years
+            let nanos = match h.below(4) {
+                0 => 0,
+                1 => (h.below(1000) as u32) * 1_000_000,
+                2 => (h.below(1_000_000) as u32) * 1000,
+                _ => h.below(1_000_000_000) as u32,
+            };
+            if let chrono::LocalResult::Single(dt) = Utc.timestamp_opt(secs, nanos) {
+                probes.push(dt);
+            }
+        }
+        for dt in probes {
+            let t = serde_json::to_string(&dt).unwrap();
+            match serde_json::from_str::<DateTime<Utc>>(&t) {
+                Ok(back) if back == dt && serde_json::to_string(&back).unwrap() == t => {}
+                other => return o.fail(format!("DateTime<Utc> {dt:?} prints as {t} and reads back as {other:?}"), "atom-law"),
+            }
+        }
+        for _ in 0..6 {
+            let ip: IpAddr = if h.chance(1, 2) {
+                IpAddr::V4(std::net::Ipv4Addr::from(h.next() as u32))
+            } else {
+                let mut seg = [0u16; 8];
+                for s in seg.iter_mut() {
+                    *s = match h.below(3) {
+                        0 => 0,
+                        1 => 0xffff,
+                        _ => h.next() as u16,
+                    };
+                }
+                IpAddr::V6(std::net::Ipv6Addr::from(seg))
+            };
+            let t = serde_json::to_string(&ip).unwrap();
+            match serde_json::from_str::<IpAddr>(&t) {
+                Ok(back) if back == ip && serde_json::to_string(&back).unwrap() == t => {}
+                other => return o.fail(format!("IpAddr {ip:?} prints as {t} and reads back as {other:?}"), "atom-law"),
+            }
+        }
+    }
     let q2: Request = match serde_json::from_str(&text) {
         Ok(q2) => q2,
         Err(e) => return o.fail(format!("from_str(to_string(request)) fails: {e}"), "request-rt-reject"),
